@@ -195,7 +195,7 @@ class LocalFileObjectStore(model.AbstractObjectStore):
         :return: The number of objects (determined from the number of documents)
         """
         logger.debug("Fetching number of documents from database ...")
-        return len(os.listdir(self.directory_path))
+        return len(self._document_hashes())
 
     def __iter__(self) -> Iterator[model.Identifiable]:
         """
@@ -205,8 +205,18 @@ class LocalFileObjectStore(model.AbstractObjectStore):
         the identifiable objects on the fly.
         """
         logger.debug("Iterating over objects in database ...")
-        for name in os.listdir(self.directory_path):
-            yield self.get_identifiable_by_hash(name.rstrip(".json"))
+        for hash_ in self._document_hashes():
+            yield self.get_identifiable_by_hash(hash_)
+
+    def _document_hashes(self) -> List[str]:
+        """
+        List the identifier hashes of all documents in the directory
+
+        Only files named ``<hash>.json`` are documents of this store. Any other file in the directory (e.g. a temporary
+        file left behind by an interrupted write) is ignored.
+        """
+        suffix = ".json"
+        return [name[:-len(suffix)] for name in os.listdir(self.directory_path) if name.endswith(suffix)]
 
     @staticmethod
     def _transform_id(identifier: model.Identifier) -> str:
